@@ -401,6 +401,9 @@ func (w *c11World) tickEmits() {
 	w.energy.WriteString(fmt.Sprintf("%d,%d\n", g+300*int64(w.slot)+3, 1000+int(w.slot)))
 	world.WriteEnergy(w.dir, w.energy.String())
 	w.hist = append(w.hist, fmt.Sprintf("tick(new reading slot %d)", w.slot))
+	// datagrams of earlier ticks (after a restart a tick re-sends every reading
+	// of the file) may still be on their way to the sink's reader
+	w.sink.Settle(2 * time.Millisecond)
 	base := w.sink.Count()
 	st := w.c.VerifState()
 	prim, havePrim := st.Servers[st.Primary]
@@ -425,13 +428,17 @@ func (w *c11World) tickEmits() {
 	if !w.sink.WaitCount(base+1, 2*time.Second) {
 		w.fail("the reporting loop did not emit the new reading for slot %d", w.slot)
 	}
-	found := false
-	for _, b := range w.sink.All()[base:] {
-		r, err := ref.DecodeReport(b)
-		if err == nil && r.Timeslot == w.slot && r.Power == uint64(1000+w.slot) {
-			found = true
+	// the tick may emit several datagrams (all readings of the file after a
+	// restart); wait for the one of the new reading, not just for the first
+	found := world.WaitActive(2*time.Second, 500*time.Microsecond, func() bool {
+		for _, b := range w.sink.All()[base:] {
+			r, err := ref.DecodeReport(b)
+			if err == nil && r.Timeslot == w.slot && r.Power == uint64(1000+w.slot) {
+				return true
+			}
 		}
-	}
+		return false
+	})
 	if !found {
 		w.fail("the datagram for the new reading of slot %d was not emitted", w.slot)
 	}
